@@ -69,14 +69,14 @@ class TimeField(FieldType):
 
     def _prepend_empty(self, num_obs, memo):
         # Use datetime.min as "empty" value
-        empty = Time([datetime.min] * num_obs, scale="utc", fmt="datetime")
+        empty = Time([datetime.min] * num_obs, scale=self.data.scale, fmt="datetime")
         empty_id = id(empty)
         self.data = TimeArray.insert(self.data, 0, empty, memo)
         memo.pop(empty_id, None)
 
     def _append_empty(self, num_obs, memo):
         # Use datetime.min as "empty" value
-        empty = Time([datetime.min] * num_obs, scale="utc", fmt="datetime")
+        empty = Time([datetime.min] * num_obs, scale=self.data.scale, fmt="datetime")
         empty_id = id(empty)
         self.data = TimeArray.insert(self.data, self.num_obs, empty, memo)
         memo.pop(empty_id, None)
